@@ -111,7 +111,7 @@ def correspond(ctx, schema, case, base, cfgs):
             ctx.fail("corr:lossless-statement:real:" + L.diff_class(p or ""), "the Lean decoder applied to the REAL introspection result differs from norm s at %s" % p,
                      {"case": case, "path": p, "impl": _at(_sorted_members(ra["decoded"]), p), "model": _at(_sorted_members(la["norm"]), p)}, kind="correspondence")
     names = sorted(schema.types)
-    picks = [ctx.rng.choice(names) for _ in range(2)] + ["NoSuchType"]
+    picks = [ctx.rng.choice(names) for _ in range(2)] + ["NoSuchType", "", ctx.rng.choice(["__Type", "__Schema", "__TypeKind", "Boolean"])]
     tq = [(n, b) for n in picks for b in (True, False)]
     reqs += [{"op": "type", "schema": dump, "name": n, "includeDeprecated": b} for n, b in tq]
     objs = [t for t in schema.types.values() if isinstance(t, ObjectType)]
@@ -140,9 +140,6 @@ def correspond(ctx, schema, case, base, cfgs):
     for (n, b), a in zip(tq, ans[2:2 + len(tq)]):
         ctx.count()
         st, r = L.execute(schema, full_type_query(n, b), "blocking")
-        if st != "ok" and a.get("raises") == r:
-            ctx.stat("observation:__type(unknown name) raises " + r)
-            continue
         if st != "ok":
             ctx.fail("corr:type-query-raises", "targeted __type query raises", {"case": case, "name": n, "outcome": r}, kind="correspondence")
             continue
